@@ -108,6 +108,15 @@ CHECKS = {
               "between compile and commit."),
         technique="contract-based deductive verification: substitution contracts per shape + end-to-end symbolic equality of templated and direct path through the real SDK/assembler/executor, z3 LIA",
         design_ref="5.C06"),
+    "C09": dict(
+        category="proof",
+        text=("Local allocation-agreement lemma from every abstract state the SDK can reach while respecting the budget (budgets 1..5, generic and NV hardware, with and "
+              "without the NV transpiler; states found by breadth-first exploration of the real SDK): every primitive (new qubit, gate, two-qubit gate, in-place/destructive "
+              "measurement, free, EPR create/recv keep) and -- for the smaller budgets in the quick tier, all in the thorough tier -- every pair of primitives within one "
+              "flush or split by a flush runs through the real pipeline without allocation fault, and after each flush the active handles' ids equal the controller's "
+              "allocated virtual ids. The state space of the stated domain is finite and enumerated completely. One open known finding (EPR context form)."),
+        technique="contract-based deductive verification: local lemma per primitive decided by complete enumeration of the finite abstract state space, real pipeline executed by the pyvc interpreter",
+        design_ref="5.C09"),
     "C19": dict(
         category="proof",
         text=("Loop-invariant proof of get_angle_spec_from_float over the reals for every angle and every tolerance in [1e-9, 1]: the real loop "
